@@ -201,7 +201,7 @@ def finish(tier, seed, m):
         "deliveries_observed": m["deliveries"],
         "non_deliveries_observed": m["nondeliveries"],
         "samples": m["samples"][:3],
-        "exhaustive": True,
+        "exhaustive": not m.get("capped", 0),
         "explanation": "states = reachable states of the implementation graph (fixpoint) + TLC model states; every TLC edge "
         "(state, action instance) is replayed on the real Router, send edges once per message kind; TLC checks the model's invariants",
     }
